@@ -1,7 +1,7 @@
 (* Dispatch table of the extracted model executable: one command per modelled function.
    Model modules are required, not imported: every reference below is qualified. *)
 From FV Require Import Base.Prelude.
-From FV Require Model.ScriptBlocks Model.MathFuncs gen.MathTable Cpp.IR Cpp.Exec Model.KindModel Model.Arith Model.LocalDataset Model.WordSubst Model.CppTypesModel Model.ExecState Cpp.EventLocal Model.Inject gen.Templates Cpp.Static Model.Lowering.
+From FV Require Model.ScriptBlocks Model.MathFuncs gen.MathTable Cpp.IR Cpp.Exec Model.KindModel Model.Arith Model.LocalDataset Model.WordSubst Model.CppTypesModel Model.ExecState Cpp.EventLocal Model.Inject gen.Templates Cpp.Static Model.Lowering Cpp.FillConsistent Model.TreeSchema.
 
 Definition dispatch (cmd : string) (arg : sexp) : sexp :=
   if String.eqb cmd "c15.gen" then ScriptBlocks.run_gen arg
@@ -38,4 +38,8 @@ Definition dispatch (cmd : string) (arg : sexp) : sexp :=
   else if String.eqb cmd "c02.check" then Static.run_check arg
   else if String.eqb cmd "c12.audit" then MathFuncs.audit MathTable.math_env MathTable.documented
   else if String.eqb cmd "c04.recognise" then Lowering.run_recognise arg
+  else if String.eqb cmd "c12.audit" then MathFuncs.audit MathTable.math_env MathTable.documented
+  else if String.eqb cmd "c03.schema" then TreeSchema.run_schema arg
+  else if String.eqb cmd "c03.expected" then TreeSchema.run_expected arg
+  else if String.eqb cmd "c03.fillcheck" then FillConsistent.run_fillcheck arg
   else s_tag "unknown-command" [SAtom cmd].
